@@ -180,6 +180,7 @@ def _eager(draw):
 
 
 def enumerate_cases(tier):
+    yield from _nested_ctrl_cases()
     k = 0
     for name in ["PauliX", "PauliY", "PauliZ", "Hadamard", "S", "T", "SX", "CNOT", "SWAP"]:
         period = {"S": 4, "T": 8, "SX": 4}.get(name, 2)
@@ -188,6 +189,17 @@ def enumerate_cases(tier):
             k += 1
             yield {"eager": {"pre": [{"op": "Hadamard", "p": [], "w": [0]}], "base": {"op": name, "p": [], "w": w}, "fn": "pow", "z": z,
                              "post": [{"op": "RX", "p": [0.3], "w": [0]}], "wires": [0, 1], "again": bool(k % 2)}}
+
+
+def _nested_ctrl_cases():
+    inner = [{"op": "CRX", "p": [0.7], "w": [1, 0]}, {"op": "CNOT", "p": [], "w": [0, 1]}, {"op": "ControlledPhaseShift", "p": [-0.7], "w": [1, 0]},
+             {"op": "ctrl", "base": {"op": "RX", "p": [0.4], "w": [0]}, "cw": [1], "cv": [0]},
+             {"op": "ctrl", "base": {"op": "Hadamard", "p": [], "w": [1]}, "cw": [0], "cv": [1]}, {"op": "Toffoli", "p": [], "w": [0, 1, 3]},
+             {"op": "CRot", "p": [0.1, 0.2, 0.3], "w": [0, 1]}, {"op": "CZ", "p": [], "w": [1, 0]}]
+    for b in inner:
+        for cv in (1, 0):
+            yield {"eager": {"pre": [{"op": "Hadamard", "p": [], "w": [2]}, {"op": "RY", "p": [0.6], "w": [1]}], "base": b, "fn": "ctrl", "z": 1, "cwire": 2,
+                             "cv": cv, "post": [{"op": "RX", "p": [0.3], "w": [0]}], "wires": [0, 1, 2, 3], "again": False}}
 
 
 def strategy(tier):
@@ -805,7 +817,10 @@ def check_eager(qp, e):
         for o in e["pre"]:
             specs.build_op(o)
         base = specs.build_op(e["base"])
-        r = qp.pow(base, e["z"], lazy=False) if e["fn"] == "pow" else qp.adjoint(base, lazy=False)
+        if e["fn"] == "ctrl":      # wrapping an already controlled operator: flattened or not, the inner one is consumed
+            r = qp.ctrl(base, control=[e["cwire"]], control_values=[e["cv"]])
+        else:
+            r = qp.pow(base, e["z"], lazy=False) if e["fn"] == "pow" else qp.adjoint(base, lazy=False)
         if e["again"] and e["fn"] == "pow":
             r2 = qp.pow(r, 1, lazy=False)     # an eager no-op on the result keeps it recorded once
         for o in e["post"]:
@@ -820,7 +835,13 @@ def check_eager(qp, e):
         raise Viol("eager-queue-lost-operators", f"{e}: queue={ops}", sig=sig, features=feats)
     B = np.asarray(sim.op_matrix(specs.build_op(e["base"])))
     z = e["z"]
-    if e["fn"] == "adjoint":
+    bw = list(specs.build_op(e["base"]).wires)
+    if e["fn"] == "ctrl":
+        Z = np.zeros_like(B)
+        I = np.eye(len(B))
+        M = np.block([[I, Z], [Z, B]]) if e["cv"] else np.block([[B, Z], [Z, I]])
+        bw = [e["cwire"]] + bw
+    elif e["fn"] == "adjoint":
         M = B.conj().T
     elif float(z) == int(z):
         M = np.linalg.matrix_power(B, int(z))
@@ -828,7 +849,6 @@ def check_eager(qp, e):
         from scipy.linalg import fractional_matrix_power
 
         M = fractional_matrix_power(B, z)
-    bw = list(specs.build_op(e["base"]).wires)
     U_pre = sim.unitary([specs.build_op(o) for o in e["pre"]], order)
     U_post = sim.unitary([specs.build_op(o) for o in e["post"]], order)
     expect = U_post @ sim.embed(M, bw, order) @ U_pre
